@@ -6,36 +6,47 @@ from common import sh2
 LEVEL = "proof"
 MANIFEST = {
     "technique": "Coq proof over a hand-written Gallina model of mp4ff fragment building (Create*/Add*/OptimizeTfhdTrun/"
-                 "SetTrunDataOffsets/encode layout/AddSampleDefaultValues/GetFullSamples) + differential correspondence "
-                 "(extracted OCaml vs the real Go API on op histories) + round-trip search on the implementation",
-    "level_text": "Theorems (coq/c05/C05Theorems.v, all closed under the global context), for ALL sample field values, flag words, "
-                  "trex contents, extra-box sizes and op histories (induction over the op list): C05_roundtrip / C05_roundtrip_nil / "
-                  "C05_roundtrip_lazy / C05_roundtrip_single / C05_roundtrip_single_modes: "
-                  "for multi-track fragments under any history of AddFullSampleToTrack (unknown ids refused, tracks receiving nothing "
-                  "included; also the metadata-only form AddSampleToTrack with the data written by the caller after the fragment) and "
-                  "single-track fragments under all six add operations in each data mode (full samples, metadata only, sample intervals), "
-                  "optimisation on or off, any trex (nil for multi-track): "
-                  "if Encode succeeds, GetFullSamples on the decoded view returns exactly the added full samples of the trex's track "
-                  "(bytes, size, duration, flags, cto, decode time), given Size=len(Data), decode times consistent with durations and "
-                  "the 2 GiB int32 guard; trun/tfhd enter through their wire view, which C05_trun_codec / C05_tfhd_codec prove to be "
-                  "decode(encode) at the byte level (other boxes are positions and sizes). Components: "
-                  "C05_optimize_resolve, C05_optimize_preserves_resolve (every flag word), C05_optimize_pinned_refuted (stale "
-                  "first-sample-flags, fixed), C05_history_inv(_single) (one trun per maximal run, write-order number = run index, "
-                  "per-track concatenation = added samples), C05_history_mdat, C05_offsets (data offset = moof + written mdat header + "
-                  "sizes of earlier runs; run data placed there; tfdt = first decode time), C05_offsets_partial (single run, all six "
-                  "operations), C05_lazy_equiv_partial (metadata-only histories build the same trafs/moof, lazy size = sum of sizes). "
-                  "NOT proved, explored only (model correspondence + round-trip search on the real code): container framing and the "
-                  "mfhd/tfdt/mdat/extra-box bytes, both encoders/decoders, multi-fragment segments (fragments are independent: pos0 is "
-                  "arbitrary), mixed data modes in one fragment.",
+                 "SetTrunDataOffsets/encode layout/AddSampleDefaultValues/GetFullSamples), of MediaSegment.Encode and the DecodeFile "
+                 "regrouping of a box stream into segments and fragments, and of the byte-level box framing (headers, mfhd, tfdt, tfhd, "
+                 "trun, traf, moof, mdat) + differential correspondence (extracted OCaml vs the real Go API on op histories, whole "
+                 "segments, malformed box sequences and mutated moof bytes) + round-trip search on the implementation",
+    "level_text": "Theorems (coq/c05/C05Theorems.v and C05SegTheorems.v, all closed under the global context), for ALL sample field values, "
+                  "flag words, trex contents, extra-box sizes and op histories (induction over the op list and over the fragment list): "
+                  "C05_segment_roundtrip: for ANY list of fragment histories (each a multi-track fragment under any history of "
+                  "AddFullSampleToTrack, unknown ids refused, extra boxes in moof/trafs, emsg/prft/free/uuid/unknown boxes of any size "
+                  "before the moof, after the mdat and between the fragments), head = nothing or styp + any sidx boxes, with or without "
+                  "init segment, any start position, optimisation on or off, any trex: if MediaSegment.Encode succeeds, the stream is well "
+                  "framed, DecodeFile regroups it into one fragment per history and reading the track fragment by fragment in order returns "
+                  "exactly the concatenation of the added full samples (bytes, size, duration, flags, cto, decode time), given "
+                  "Size=len(Data), consistent decode times and the 2 GiB int32 guard per fragment. Components: C05_segment_decode "
+                  "(regrouping: moof start / mdat payload positions = stream positions), C05_segment_independent (independence of the "
+                  "fragments as a lemma: any per-fragment result that holds at every position lifts to the segment). Per fragment (as before): "
+                  "C05_roundtrip / _nil / _lazy / _single / _single_modes, C05_optimize_resolve, C05_optimize_preserves_resolve, "
+                  "C05_history_inv(_single), C05_history_mdat, C05_offsets(_partial), C05_lazy_equiv_partial. Byte level: "
+                  "C05_trun_codec, C05_tfhd_codec, C05_tfdt_codec (v0/v1 by value), C05_fragment_codec (the whole byte string "
+                  "moof ++ mdat incl. the 16-byte large-size mdat header parses back to the wire view), C05_roundtrip_bytes (C05_roundtrip "
+                  "end to end on the bytes of one fragment without extra boxes, for fields within their wire widths). Refuted with "
+                  "witnesses reproduced on the real code: C05_optimize_pinned_refuted (fixed), C05_optimized_trun_refuted (known C05-F7: "
+                  ">1024 uniform samples + optimisation are written as a trun DecodeTrun refuses), C05_mixed_modes_refuted (known C05-F8: "
+                  "metadata-only additions mixed with full samples/intervals in one fragment). "
+                  "NOT proved, explored only (correspondence + search): the segment theorem for single-track and metadata-only fragments "
+                  "(they follow from C05_segment_independent + the per-fragment theorems but are not instantiated), sidx boxes without a styp "
+                  "(the File then splits the stream into segments by position: modelled, compared, not in the theorem), byte level of "
+                  "extra children inside moof/traf and of the boxes around the fragments (sizes only), EncodeSW vs Encode and "
+                  "DecodeFile vs DecodeFileSR (one model for both; differences are searched).",
     "level_note": "Trusted: Coq kernel, extraction (ExtrOcamlBasic), OCaml/Go glue, generators. The model is a hand transcription tied to "
                   "/repo by differential runs on every check (op outcome classes, write-order numbers, tfdt, mdat bookkeeping, flags and "
-                  "defaults after optimisation, all data offsets, sizes, recovered FullSample lists). Box bodies other than "
-                  "tfhd/tfdt/trun/mdat are opaque sizes; io errors are not modelled; sort.Slice is modelled by a stable sort (write-order "
-                  "numbers made by the API are pairwise different). Single-track calls on multi-track fragments and mixed data modes "
-                  "are outside the documented use and only covered by the correspondence.",
+                  "defaults after optimisation, all data offsets, sizes, moof bytes, recovered FullSample lists; per segment: framing, "
+                  "number of segments and fragments, every moof start and mdat payload position, per-track read-back; malformed box "
+                  "sequences: error/panic classes). Box bodies other than mfhd/tfhd/tfdt/trun/mdat are opaque sizes; io errors are not "
+                  "modelled; positions are not wrapped at 2^64; sort.Slice is modelled by a stable sort (write-order numbers made by the "
+                  "API are pairwise different). The byte-level container model is strict (a child's declared size must be what its "
+                  "decoder consumes): the real SliceReader decoders advance by the computed size and accept some streams the model "
+                  "refuses (compared one-sidedly on mutated moofs). Beyond the mdat payload TrunBox.GetFullSamples slices up to the "
+                  "capacity of mdat.Data where the model says panic (outside every theorem's domain; excluded from the comparison).",
 }
 
-HANDLED = ("O", "H", "D", "G", "B")   # case kinds the model driver recomputes
+HANDLED = ("O", "H", "D", "G", "B", "M")   # case kinds the model driver recomputes
 
 
 def build(ctx):
@@ -52,6 +63,8 @@ def run(ctx):
     ctx.cov["trusted_base"] = common.TRUSTED_BASE_COMMON + [
         "model: coq/c05/C05Model.v is a hand transcription of mp4/fragment.go, trun.go, tfhd.go, tfdt.go, traf.go "
         "(OptimizeTfhdTrun), mdat.go, trex.go (io errors not modelled; box bodies other than tfhd/tfdt/trun/mdat are opaque sizes)",
+        "model: coq/c05/C05SegModel.v transcribes mediasegment.go Encode, file.go DecodeFile/AddChild/startSegmentIfNeeded (default options) "
+        "at the level of boxes; coq/c05/C05SegCodecModel.v the box headers, container children loop, mfhd, tfdt, traf, moof, mdat header (strict framing)",
         "hooks: /repo/mp4/verif_c05.go (build tag verif) exposes nextTrunNr and writeOrderNr read-only",
     ]
     ctx.assumptions += [
@@ -63,6 +76,9 @@ def run(ctx):
         "Fragment.Encode with OptimizeTrun on a single-track fragment without samples returns the error 'no samples in trun': "
         "counted as a refusal, not as a failing input",
         "no box between moof and mdat (DecodeFile rejects it explicitly)",
+        "segments in the search: 1-6 fragments, head = nothing / styp / styp + truthful sidx / truthful sidx alone (references = the "
+        "fragments' byte lengths); sidx boxes with arbitrary references only in the correspondence",
+        "default decode options (no DecISMFlag / DecStartOnMoof / lazy mdat)",
     ]
     exe, model = build(ctx)
     pr = ctx.proofs("c05", "C05Theorems.v")
@@ -135,9 +151,14 @@ def run(ctx):
                        "FullSample lists recovered by DecodeFile/DecodeFileSR + GetFullSamples for every trex and nil; "
                        "plus every history of length <= %d over 2 tracks and 2-valued flags/duration/cto with and without optimisation; "
                        "distinct = distinct case lines; "
-                       "search: every such history of length <= %d, then %d random segments (1-4 tracks, 1-3 fragments, 0-40 ops, extra boxes, both encoders, optimise on/off, "
-                       "both decoders, adversarial trex): added list == recovered list per track, and the data-offset oracle; "
-                       "probes with metadata-only samples of huge payloads (offset oracle only) and a re-encode probe"
+                       "corr G: one case per random segment whose fragments all encode (1-6 fragments, emsg/prft/free/uuid/unknown boxes in and between them, styp, sidx truthful or arbitrary, "
+                       "with/without init, Encode or EncodeSW, DecodeFile or DecodeFileSR): framing bits, segments, fragments per segment, moof start and mdat payload positions, per-trex read-back over all fragments; "
+                       "corr B: as many malformed sequences of top-level boxes (mdat without moof, box between moof and mdat, two moofs, emsg only, styp/sidx in the middle): error/panic classes, segments, positions, GetFullSamples classes; "
+                       "corr M: the moof bytes of every plain fragment through DecodeBoxSR vs the byte-level model (1/4 truncated, 1/4 one byte changed: there the stricter model may answer error); "
+                       "search: every such history of length <= %d, then %d random segments (1-4 tracks, 1-6 fragments, 0-40 ops, extra boxes, sidx, both encoders, optimise on/off, "
+                       "both decoders, adversarial trex): added list == recovered list per track, the data-offset oracle, moof/mdat positions of every decoded fragment, "
+                       "Encode vs EncodeSW byte equality and DecodeFile vs DecodeFileSR agreement (every 4th); "
+                       "probes with metadata-only samples of huge payloads (offset oracle only), a re-encode probe, the >1024-uniform-samples probe and the mixed-mode probe"
                        % (n, exh_c, exh_s, ns))
 
 
